@@ -340,6 +340,68 @@ func runC15() {
 			cases = append(cases, coreCase(false, m.Cast, vm.MemoryBudget, ei, tree, prog, r))
 		}
 	}
+	// functions of the fast form func(...interface{}) interface{} that KEEP their argument slice (constructors of
+	// lists / tuples): the typed pipeline calls them with OpCallFast, the untyped one through reflect.Call
+	{
+		type fastEnv struct {
+			A, B  int
+			S     string
+			Pack  func(xs ...interface{}) interface{}
+			Pair  func(xs ...interface{}) interface{}
+			First func(xs ...interface{}) interface{}
+		}
+		mk := func() *fastEnv {
+			return &fastEnv{A: 1, B: 2, S: "s",
+				Pack:  func(xs ...interface{}) interface{} { return xs },
+				Pair:  func(xs ...interface{}) interface{} { return map[string]interface{}{"all": xs, "n": len(xs)} },
+				First: func(xs ...interface{}) interface{} { return xs[:1] }}
+		}
+		asMap := func(e *fastEnv) map[string]interface{} {
+			return map[string]interface{}{"A": e.A, "B": e.B, "S": e.S, "Pack": e.Pack, "Pair": e.Pair, "First": e.First}
+		}
+		fsrcs := []string{"[Pack(1, 2), Pack(3, 4)]", "Pack(A, B) == Pack(B, A)", "Pack(Pack(1), Pack(2))", "map([1, 2, 3], {Pack(#)})", "map([1, 2, 3], {Pack(#, A)})[0]",
+			"Pack(1, 2, 3)[0] + Pack(4)[0]", "[Pack(1, 2, 3), Pack(4)]", "[Pack(4), Pack(1, 2, 3)]", "[First(1, 2), First(3, 4)]", "[Pair(1), Pair(2)]", "{a: Pack(1), b: Pack(2)}",
+			"filter([1, 2], {Pack(#)[0] == #})", "[Pack(S), Pack(A), Pack()]", "Pack(A)[0] + Pack(B)[0]", "len(Pack(1, 2)) + len(Pack(3))", "[Pack(1, 2)[1], Pack(3, 4)[1]]",
+			"Pack(A, B)[0:1] == Pack(B, A)[1:2]", "all([1, 2], {Pack(#)[0] == #}) and Pack(9)[0] == 9", "[Pack(1), Pack(2), Pack(3)][0]"}
+		fmodes := []struct {
+			name string
+			run  func(src string) (interface{}, error)
+		}{
+			{"Eval", func(src string) (interface{}, error) { return expr.Eval(src, mk()) }},
+			{"Compile", func(src string) (interface{}, error) { o, e, _ := compileRun(src, mk()); return o, e }},
+			{"Compile+Env(*struct)", func(src string) (interface{}, error) { e0 := mk(); o, e, _ := compileRun(src, e0, expr.Env(e0)); return o, e }},
+			{"Compile+Env(struct)", func(src string) (interface{}, error) { e0 := mk(); o, e, _ := compileRun(src, *e0, expr.Env(*e0)); return o, e }},
+			{"Compile+Env(map)", func(src string) (interface{}, error) { m := asMap(mk()); o, e, _ := compileRun(src, m, expr.Env(m)); return o, e }},
+			{"Compile+Env(*struct)+Optimize(false)", func(src string) (interface{}, error) {
+				e0 := mk()
+				o, e, _ := compileRun(src, e0, expr.Env(e0), expr.Optimize(false))
+				return o, e
+			}},
+		}
+		for _, src := range fsrcs {
+			var first, firstName string
+			have := false
+			for _, m := range fmodes {
+				out, err := m.run(src)
+				rep.Evaluations++
+				if err != nil {
+					rep.hist("fast-retaining family: fails in " + m.name)
+					continue
+				}
+				got := fmt.Sprintf("%#v", normSeq(out))
+				if !have {
+					first, firstName, have = got, m.name, true
+					continue
+				}
+				distinct["fast|"+src] = true
+				if got != first {
+					rep.fail(Failure{Key: "C15-modes-disagree", What: "two compile / environment variants that both succeed return different results (function keeping its variadic argument slice)",
+						Input: map[string]interface{}{"src": src, "env": "fastEnv", "a": firstName, "b": m.name}, Want: clip(first), Got: clip(got)})
+					break
+				}
+			}
+		}
+	}
 	rep.Distinct = len(distinct)
 	rep.Rule = "every source (exhaustive shape family sample + type-directed random expressions incl. 2% ill-typed operands) x every environment is run in 8 variants: Eval; Compile without Env; with Env(*struct), Env(struct), Env(map[string]interface{}) each with and without AllowUndefinedVariables; no Env but a map environment; all variants that succeed must return equal values (with dynamic types) and equal call logs; distinct_nontrivial = distinct (source, environment) with at least two succeeding variants; typed and untyped trees are also evaluated in the Coq model (specialised vs generic instructions)"
 	for i := 0; i < 5 && i < len(srcs); i++ {
